@@ -28,7 +28,7 @@ RULE = ("seeded swarm: strategy tables with present/absent entries, context-styl
         "+/-inf, negative}; distinct by trace shape; non-trivial = >=1 failed attempt")
 COMPONENTS = common.REAL_COMPONENTS
 ASSUMPTIONS = ["callbacks take zero virtual time so remaining_s is evaluated at the failure instant", "sampling, not proof"]
-BUDGETS = {"quick": (20000, 40), "thorough": (1200000, 280)}
+BUDGETS = {"quick": (60000, 90), "thorough": (2800000, 285)}
 
 
 def gen(seed, tier="quick"):
